@@ -357,6 +357,36 @@ impl Group for FileRead {
                 std::fs::write(&path, &content).unwrap();
                 let g = read(path.to_str().unwrap());
                 let g2 = if cached { read(path.to_str().unwrap()) } else { g.clone() };
+                // the other ways to a file's bytes: `file_cached`, `file_cached_with_mtime` (first read and from its cache), `stat`
+                {
+                    let ps = path.to_str().unwrap().to_owned();
+                    let c2: Option<kvarn::comprash::FileCache> = if cached { Some(Default::default()) } else { None };
+                    let fs_mtime = std::fs::metadata(&path).and_then(|m| m.modified()).ok();
+                    let r = self.rt.block_on(async {
+                        let a1 = kvarn::read::file_cached(&ps, c2.as_ref()).await.map(|b| b.to_vec());
+                        let a2 = kvarn::read::file_cached(&ps, c2.as_ref()).await.map(|b| b.to_vec());
+                        let c3: Option<kvarn::comprash::FileCache> = if cached { Some(Default::default()) } else { None };
+                        let m1 = kvarn::read::file_cached_with_mtime(&ps, c3.as_ref()).await;
+                        let m2 = kvarn::read::file_cached_with_mtime(&ps, c3.as_ref()).await;
+                        let st = kvarn::read::stat(&ps).await;
+                        (a1, a2, m1, m2, st)
+                    });
+                    let want = Some(content.clone());
+                    if r.0 != want || r.1 != want { let _ = std::fs::remove_file(&path); return format!("file_cached returned {:?} / {:?} bytes of a {}-byte file", r.0.map(|x| x.len()), r.1.map(|x| x.len()), content.len()); }
+                    for (i, m) in [&r.2, &r.3].iter().enumerate() {
+                        match m {
+                            Some((b, t)) => {
+                                if b.as_ref() != &content[..] { let _ = std::fs::remove_file(&path); return format!("file_cached_with_mtime (read {i}) returned {} bytes of a {}-byte file", b.len(), content.len()); }
+                                if let Some(ft) = fs_mtime {
+                                    let ft = time::OffsetDateTime::from(ft);
+                                    if (*t - ft).abs() > time::Duration::seconds(1) { let _ = std::fs::remove_file(&path); return format!("file_cached_with_mtime (read {i}) reports mtime {t}, the file system {ft}"); }
+                                }
+                            }
+                            None => { let _ = std::fs::remove_file(&path); return format!("file_cached_with_mtime (read {i}) found no file"); }
+                        }
+                    }
+                    match r.4 { Some(st) if st.len == content.len() as u64 => {} other => { let _ = std::fs::remove_file(&path); return format!("stat reports {:?} for a {}-byte file", other.map(|s| s.len), content.len()); } }
+                }
                 let _ = std::fs::remove_file(&path);
                 if g != g2 { return format!("second read (from the file cache) differs: {:?} vs {:?} bytes", g.map(|x| x.len()), g2.map(|x| x.len())); }
                 (content, g)
